@@ -1,7 +1,7 @@
 (* C04 -- property theorems: score -> MIDI -> score.  Statements + `exact` only; proofs are in
    Proofs/C04.v.  All definitions are those of Model/C04.v, the model the correspondence of
    harness/props/c04.py evaluates against save_score_midi / load_score_midi on every run. *)
-From PV Require Import Lib.Base Lib.Round Model.C04 Model.C04_stream Proofs.C04 Proofs.C04_nonneg Proofs.C04_stream.
+From PV Require Import Lib.Base Lib.Round Model.C04 Model.C04_stream Model.C04_hist Proofs.C04 Proofs.C04_nonneg Proofs.C04_stream Proofs.C04_hist.
 From Coq Require Import QArith Permutation.
 #[local] Open Scope Z_scope.
 
@@ -272,3 +272,55 @@ Theorem score_file_roundtrip : forall mode vel an ppq ps,
                         (zrange 0 (Z.to_nat (n_tracks mode ps)))).
 Proof. exact Proofs.C04_stream.score_file_roundtrip. Qed.
 Print Assumptions score_file_roundtrip.
+
+(* ---- state carried between calls (Model/C04_hist.v): a Score whose parts' quarter durations are edited
+   between exports -- Part.set_quarter_duration (the list manipulation of the code: overwrite at t, insert
+   unless redundant), score[i] = part -- and the ticks per quarter each save_score_midi call writes. *)
+
+(* for ALL histories: every export observes f(current state), the current state being nothing but the fold
+   of the edits made so far over the initial state (no other carrier of information between calls) *)
+Theorem history_observation_is_current_state : forall st ops, run st ops = spec_obs st [] ops.
+Proof. exact run_is_current_state. Qed.
+Print Assumptions history_observation_is_current_state.
+
+(* the statement is not vacuous: a variant that keeps the first result per minimum_ppq violates it *)
+Theorem history_memo_refuted :
+  exists st ops, run_memo [] st ops <> spec_obs st [] ops /\ run st ops = spec_obs st [] ops.
+Proof. exact run_memo_refuted. Qed.
+Print Assumptions history_memo_refuted.
+
+(* whatever happened before, the ticks per quarter of an export are >= minimum_ppq and a multiple of every
+   quarter duration the parts hold now (so every tick of the current score is integral) *)
+Theorem history_ppq_divisible_now : forall st ops mn,
+  (forall q, In q (all_q (state_after st ops)) -> 0 < q) ->
+  exists ppq, run st (ops ++ [HExport mn]) = run st ops ++ [Some ppq] /\ mn <= ppq /\
+              forall q, In q (all_q (state_after st ops)) -> (q | ppq).
+Proof. exact history_ppq_divisible. Qed.
+Print Assumptions history_ppq_divisible_now.
+
+(* set_quarter_duration(t, q) on a part (lists starting at time 0): afterwards q is in force from t up to
+   the next change point and nothing else changed -- although the code inserts nothing when the entry
+   before t already has q and overwrites an entry at t *)
+Theorem set_quarter_duration_spec : forall q0 r t q x, increasing_from 0 r = true -> 0 <= t ->
+  qd_at q0 (set_qd None ((0, q0) :: r) t q) x =
+  if (t <=? x) && before_next ((0, q0) :: r) t x then q else qd_at q0 ((0, q0) :: r) x.
+Proof. exact set_qd_spec. Qed.
+Print Assumptions set_quarter_duration_spec.
+
+(* the times stay strictly increasing (the interpolators need it); the duration in force is one of the list *)
+Theorem set_quarter_duration_increasing : forall l prev a t q, increasing_from a l = true -> a < t ->
+  increasing_from a (set_qd prev l t q) = true.
+Proof. exact set_qd_increasing. Qed.
+Print Assumptions set_quarter_duration_increasing.
+
+Theorem quarter_duration_in_force_is_listed : forall l d x, qd_at d l x = d \/ In (qd_at d l x) (map snd l).
+Proof. exact qd_at_in. Qed.
+Print Assumptions quarter_duration_in_force_is_listed.
+
+Theorem history_example :
+  run [[(0, 4)]; [(0, 6)]] [HExport 0; HSetQD 0 16 5; HExport 0; HSetQD 0 32 5; HSetQD 1 0 8; HExport 100;
+                            HSetItem 0 [(0, 3)]; HExport 0]
+  = [Some 12; Some 60; Some 160; Some 24]
+  /\ state_after [[(0, 4)]; [(0, 6)]] [HSetQD 0 16 5; HSetQD 0 32 5; HSetQD 1 0 8] = [[(0, 4); (16, 5)]; [(0, 8)]].
+Proof. exact history_example_pf. Qed.
+Print Assumptions history_example.
